@@ -63,7 +63,7 @@ def main():
                         chains.append(ch)
     n_iid = 600 if quick else 8000
     n_grid = 8 if quick else 60
-    exe, recs, fails = genmon.run_specs("plain", lines, chk.seed, n_iid, n_grid, False)
+    exe, recs, fails = genmon.run_specs("plain", lines, chk.seed, n_iid, n_grid, False, deep_events=20000 if quick else 2000000)
     for shard, rc, err in fails:
         chk.inconclusive_("gen_monitor shard %d exited %s: %s" % (shard, rc, err[-400:]))
     by = {}
@@ -119,7 +119,8 @@ def main():
         "distinct_nontrivial": distinct,
         "rule": "every (isotope, level, mode 1..20) that the reference rules accept (table parsed from the reference source, "
                 "cross-checked with the README level list), plus random and nested energy windows on the 1/64 MeV lattice; "
-                "events from decay0_generator::shoot on i.i.d. tapes and with each of the first <=64 cells pinned over a grid; "
+                "events from decay0_generator::shoot on i.i.d. tapes, with each of the first <=64 cells pinned over a grid and at the branching thresholds of the "
+                "daughter's de-excitation scheme, and a frontier search over pinned cells guided by new cascade signatures (harness/steer.h); "
                 "distinct = distinct (configuration, cascade path signature) pairs",
         "samples": samples or [{"note": "none"}],
         "configurations": accepted,
